@@ -274,6 +274,11 @@ def _check_logrep_pair(U, a, b, cfg, acc):
         rec_exc("LogRep-LogRep", r)
     elif a >= b:
         ex = ninf if a == b else d_lde(da, db)
+        if not isinstance(r, L) and r != r:
+            acc.violation(driver="lattice", config=cfg,
+                          fields={"op": "LogRep-LogRep", "problem": "nan"}, kind="nan_result",
+                          observed=r, expected=to_float(ex), args=[a, b])
+            return
         lv = r.log_val if isinstance(r, L) else (math.log(r) if r > 0 else -INF)
         judge(lv, ex, tol_log(a, b, to_float(ex)), acc, cfg, "LogRep-LogRep", [a, b], "log")
     else:
@@ -281,6 +286,23 @@ def _check_logrep_pair(U, a, b, cfg, acc):
         mag = max(abs(to_float(d_exp(da))), abs(to_float(d_exp(db))))
         if mag != INF:
             judge(float(r), ex, 4 * EPS * mag, acc, cfg, "LogRep-LogRep(neg)", [a, b], "lin")
+    # operands are values: no operator may return (an alias of) or modify an operand
+    for name, fn in (("+", lambda: x + y), ("-", lambda: x - y), ("*", lambda: x * y),
+                     ("/", lambda: x / y)):
+        if name == "/" and a == -INF and b == -INF:
+            continue
+        acc.count("evaluations")
+        st, r = call(fn)
+        if st == "exc" or not isinstance(r, L):
+            continue
+        st2, _ = call(r.__iadd__, L(log_val=0.25))
+        if x.log_val != a and not (x.log_val != x.log_val and a != a) or \
+                (y.log_val != b and not (y.log_val != y.log_val and b != b)):
+            acc.violation(driver="lattice", config=cfg,
+                          fields={"op": "LogRep" + name + "LogRep", "problem": "operand_modified"},
+                          kind="operand_modified",
+                          observed=[x.log_val, y.log_val], expected=[a, b], args=[a, b])
+            x, y = L(log_val=a), L(log_val=b)
     # comparisons: exact order of log values
     for name, fn, ref in (("<", lambda: x < y, a < b), (">", lambda: x > y, a > b),
                           ("<=", lambda: x <= y, a <= b), (">=", lambda: x >= y, a >= b),
